@@ -5,8 +5,8 @@ package symgo
 
 import (
 	"go/token"
-	"strings"
 	"go/types"
+	"strings"
 
 	"golang.org/x/tools/go/ssa"
 
